@@ -84,6 +84,9 @@ func buildNode(n *gen.Node) parquet.Node {
 	if n.Leaf != "" {
 		return n.ParquetNode()
 	}
+	if isVariantNode(n) {
+		return buildVariant(n)
+	}
 	if isIntactList(n) {
 		return parquet.List(withRep(n.Fields[0].Fields[0]))
 	}
@@ -126,12 +129,13 @@ func fieldIndex(n *gen.Node, name string) int {
 	return -1
 }
 
-// groupAt follows a path of names through groups; nil if it does not lead to a group.
+// groupAt follows a path of names through groups; nil if it does not lead to a
+// group (a variant column is one field: edits do not reach inside it).
 func groupAt(root *gen.Node, path []string) *gen.Node {
 	n := root
 	for _, name := range path {
 		i := fieldIndex(n, name)
-		if i < 0 || n.Fields[i].Leaf != "" {
+		if i < 0 || n.Fields[i].Leaf != "" || isVariantNode(n.Fields[i]) {
 			return nil
 		}
 		n = n.Fields[i]
@@ -143,7 +147,7 @@ func groupAt(root *gen.Node, path []string) *gen.Node {
 func groupPaths(n *gen.Node, prefix []string, out *[][]string) {
 	*out = append(*out, append([]string(nil), prefix...))
 	for _, f := range n.Fields {
-		if f.Leaf == "" {
+		if f.Leaf == "" && !isVariantNode(f) {
 			groupPaths(f, append(prefix, f.Name), out)
 		}
 	}
@@ -219,6 +223,9 @@ var addLeafKinds = []string{"bool", "int32", "int64", "int96", "float", "double"
 
 func genAddNode(rng *rand.Rand, depth int) *gen.Node {
 	nd := &gen.Node{Rep: []int{gen.Req, gen.Opt, gen.Opt, gen.Rpt}[rng.Intn(4)]}
+	if rng.Intn(16) == 0 {
+		return variantNode("", nd.Rep, nil) // a variant column that the source lacks
+	}
 	if depth > 0 && rng.Intn(3) == 0 {
 		n := 1 + rng.Intn(3)
 		for i := 0; i < n; i++ {
@@ -385,6 +392,9 @@ func addedLeaves(src, tgt *gen.Node, missing bool, out *[]bool) {
 // oracle syntax
 
 func nameTok(s string) string {
+	if s == "typed_value" {
+		s = "typed_v" // names are 8 bytes in the model; no generated name collides
+	}
 	if len(s) > 8 {
 		panic("name longer than 8 bytes: " + s)
 	}
@@ -451,41 +461,100 @@ func rowTok(ncols int, row parquet.Row) string {
 // cases
 
 type c12Case struct {
-	Seed      int64  `json:"seed"`
-	NRows     int    `json:"nrows"`
-	MaxDepth  int    `json:"max_depth"`
-	MaxFields int    `json:"max_fields"`
-	NullBias  int    `json:"null_bias"`
-	Edits     []edit `json:"edits"`
-	Kind      string `json:"kind"` // compat | clash
+	Seed      int64     `json:"seed"`
+	NRows     int       `json:"nrows"`
+	MaxDepth  int       `json:"max_depth"`
+	MaxFields int       `json:"max_fields"`
+	NullBias  int       `json:"null_bias"`
+	Variants  []varSpec `json:"variants,omitempty"` // variant columns put into the generated source
+	Edits     []edit    `json:"edits"`
+	Kind      string    `json:"kind"` // compat | clash
 }
 
 type built struct {
-	src, tgt   *gen.Node
+	src, tgt   *gen.Node // the schema of the file (physical source) and the target
+	srcA       *gen.Node // the abstract source: variant columns stored the way the target declares them
 	ss, ts     *parquet.Schema
-	vals       []*gen.Val
-	rows       []parquet.Row // source rows
+	vals       []*gen.Val    // abstract source values
+	rows       []parquet.Row // source rows (file layout)
+	rowsA      []parquet.Row // source rows of the abstract source
 	want       []parquet.Row // expected target rows
 	added      []bool        // per target column
+	pairs      [][2]int      // (metadata, value) columns of the unshredded variants of the target
+	absToPhys  []int         // column of the file for every column of the abstract source
+	nRebuilt   int           // variant columns of the target that are reconstructed from a shredded source
 	compatible bool
+	layoutErr  string
 }
 
+// sourceBase is the generated source before variant columns are put in.
+func (cs *c12Case) sourceBase() *gen.Node {
+	return gen.Schema(rand.New(rand.NewSource(cs.Seed)), gen.Config{MaxDepth: cs.MaxDepth, MaxFields: cs.MaxFields})
+}
+
+// editBase is the tree the edit script applies to: the source as the target
+// sees it (variant columns in the layout the target declares).
+func (cs *c12Case) editBase() *gen.Node { return insertVariants(cs.sourceBase(), cs.Variants, false) }
+
 func (cs *c12Case) build() *built {
-	rng := rand.New(rand.NewSource(cs.Seed))
 	b := &built{}
-	b.src = gen.Schema(rng, gen.Config{MaxDepth: cs.MaxDepth, MaxFields: cs.MaxFields})
-	b.tgt = applyEdits(b.src, cs.Edits)
+	base := cs.sourceBase()
+	b.src = insertVariants(base, cs.Variants, true)
+	b.srcA = insertVariants(base, cs.Variants, false)
+	b.tgt = applyEdits(b.srcA, cs.Edits)
 	b.ss, b.ts = buildSchema(b.src), buildSchema(b.tgt)
-	b.compatible = compatible(b.src, b.tgt)
-	addedLeaves(b.src, b.tgt, false, &b.added)
+	b.compatible = compatible(b.srcA, b.tgt)
+	addedLeaves(b.srcA, b.tgt, false, &b.added)
+	col := 0
+	unshreddedPairs(b.tgt, &col, &b.pairs)
+	phys := leafPathIndex(b.src)
+	b.absToPhys = make([]int, len(b.srcA.Leaves()))
+	for p, i := range leafPathIndex(b.srcA) {
+		b.absToPhys[i] = phys[p]
+	}
+	b.nRebuilt = countRebuilt(b.src, b.tgt)
+	if len(cs.Variants) > 0 {
+		if e := schemaLayoutError(b.src, b.ss); e != "" {
+			b.layoutErr = "source: " + e
+		} else if e := schemaLayoutError(b.tgt, b.ts); e != "" {
+			b.layoutErr = "target: " + e
+		}
+	}
 	rrng := rand.New(rand.NewSource(cs.Seed ^ 0x5DEECE66D))
+	vrng := rand.New(rand.NewSource(cs.Seed ^ 0x2545F4914F6CDD1D))
 	for i := 0; i < cs.NRows; i++ {
-		v := gen.Row(rrng, b.src, cs.NullBias)
+		v := gen.Row(rrng, b.srcA, cs.NullBias)
+		pv := v
+		if len(cs.Variants) > 0 {
+			v, pv = variantValues(vrng, b.srcA, b.src, v)
+		}
 		b.vals = append(b.vals, v)
-		b.rows = append(b.rows, gen.Shred(b.src, v))
-		b.want = append(b.want, gen.Shred(b.tgt, goProject(b.src, b.tgt, v)))
+		b.rows = append(b.rows, gen.Shred(b.src, pv))
+		b.rowsA = append(b.rowsA, gen.Shred(b.srcA, v))
+		b.want = append(b.want, gen.Shred(b.tgt, goProject(b.srcA, b.tgt, v)))
 	}
 	return b
+}
+
+// countRebuilt counts the variant columns that the target declares unshredded
+// and the file stores shredded, at the same place.
+func countRebuilt(src, tgt *gen.Node) int {
+	if src.Leaf != "" || tgt.Leaf != "" {
+		return 0
+	}
+	if isVariantNode(src) || isVariantNode(tgt) {
+		if isVariantNode(src) && isVariantNode(tgt) && len(tgt.Fields) == 2 && len(src.Fields) == 3 {
+			return 1
+		}
+		return 0
+	}
+	n := 0
+	for _, tf := range tgt.Fields {
+		if si := fieldIndex(src, tf.Name); si >= 0 {
+			n += countRebuilt(src.Fields[si], tf)
+		}
+	}
+	return n
 }
 
 func cloneRows(rows []parquet.Row) []parquet.Row {
@@ -829,7 +898,7 @@ var paths = []pathFn{
 		if len(got) != 2*n {
 			return nil, fmt.Errorf("%d rows merged from %d + %d", len(got), n, n)
 		}
-		if cl, what := compareRows(b, got[n:]); cl != "" {
+		if cl, what := compareRows(b, canonVariants(b.pairs, b.want, got[n:])); cl != "" {
 			return nil, fmt.Errorf("rows of the input that is already in the target schema: %s: %s", cl, what)
 		}
 		return got[:n], nil
@@ -906,9 +975,17 @@ func check(c *core.Ctx, cs *c12Case) (out *findings, bucket string, nontrivial b
 	}
 	bucket = fmt.Sprintf("%s/edits=%d", cs.Kind, len(cs.Edits))
 	nontrivial = len(cs.Edits) > 0 && cs.NRows > 0
-	srcTok, tgtTok := schemaTok(b.src), schemaTok(b.tgt)
+	srcTok, tgtTok := schemaTok(b.srcA), schemaTok(b.tgt)
 	info := " [source " + b.src.Text() + " -> target " + b.tgt.Text() + "]"
 	equal := srcTok == tgtTok
+	nA := len(b.srcA.Leaves())
+	if len(cs.Variants) > 0 {
+		bucket = fmt.Sprintf("%s+variant/edits=%d", cs.Kind, len(cs.Edits))
+	}
+	if b.layoutErr != "" {
+		out.viol("harness-schema-layout", "the library lays the columns of the schema out differently from the tree it was built from: "+b.layoutErr+info)
+		return out, bucket, nontrivial
+	}
 
 	data, werr := writeFile(b.ss, b.rows, cs.NRows/2, cs.Seed)
 	if werr != nil {
@@ -930,13 +1007,13 @@ func check(c *core.Ctx, cs *c12Case) (out *findings, bucket string, nontrivial b
 			// pin down what it does instead: drop + add, i.e. the model's general path
 			rows := cloneRows(b.rows)
 			if e := guarded(func() error { _, e := conv.Convert(rows); return e }); e == nil {
-				if cl, what := compareRows(b, rows); cl != "" {
+				if cl, what := compareRows(b, canonVariants(b.pairs, b.want, rows)); cl != "" {
 					out.viol("clash-"+cl, "accepted incompatible target, and the result is not even drop+add: "+what+info)
 				}
 			}
 		}
 		if c.HasOracle() {
-			if a := c.Ask("c12.convert fixed " + srcTok + " " + tgtTok + " " + rowTok(len(b.src.Leaves()), parquet.Row{})); !strings.HasPrefix(a, "REJECT") && len(b.rows) >= 0 {
+			if a := c.Ask("c12.convert fixed " + srcTok + " " + tgtTok + " " + rowTok(nA, parquet.Row{})); !strings.HasPrefix(a, "REJECT") && len(b.rows) >= 0 {
 				// the request above carries an empty row on purpose: the verdict does not depend on the row
 				out.mism("corr:C12.reject", srcTok+" "+tgtTok, "incompatible (harness rule)", a)
 				ok = false
@@ -950,7 +1027,7 @@ func check(c *core.Ctx, cs *c12Case) (out *findings, bucket string, nontrivial b
 		req := []string{"c12.project", srcTok, tgtTok, "64"}
 		var want []string
 		for i := range b.rows {
-			req = append(req, rowTok(len(b.src.Leaves()), b.rows[i]))
+			req = append(req, rowTok(nA, b.rowsA[i]))
 			want = append(want, rowTok(len(b.added), b.want[i]))
 		}
 		if a := c.Ask(strings.Join(req, " ")); a != strings.Join(want, " ") {
@@ -980,6 +1057,7 @@ func check(c *core.Ctx, cs *c12Case) (out *findings, bucket string, nontrivial b
 			ok = false
 			continue
 		}
+		got = canonVariants(b.pairs, b.want, got)
 		if cl, what := compareRows(b, got); cl != "" {
 			out.viol(cl, p.name+": "+what+info)
 			ok = false
@@ -990,7 +1068,7 @@ func check(c *core.Ctx, cs *c12Case) (out *findings, bucket string, nontrivial b
 			req := []string{"c12.convert", modelMode, srcTok, tgtTok}
 			var impl []string
 			for i := range b.rows {
-				req = append(req, rowTok(len(b.src.Leaves()), b.rows[i]))
+				req = append(req, rowTok(nA, b.rowsA[i]))
 				impl = append(impl, rowTok(len(b.added), got[i]))
 			}
 			if a := c.Ask(strings.Join(req, " ")); a != strings.Join(impl, " ") {
@@ -998,7 +1076,7 @@ func check(c *core.Ctx, cs *c12Case) (out *findings, bucket string, nontrivial b
 				ok = false
 			}
 			// Conversion.Column: which source column each target column reads
-			if conv, err := parquet.Convert(b.ts, b.ss); err == nil && !equal {
+			if conv, err := parquet.Convert(b.ts, b.ss); err == nil && schemaTok(b.src) != tgtTok {
 				cols := make([]string, len(b.added))
 				for i := range cols {
 					cols[i] = fmt.Sprint(conv.Column(i))
@@ -1007,7 +1085,19 @@ func check(c *core.Ctx, cs *c12Case) (out *findings, bucket string, nontrivial b
 				if modelMode == "pinned" {
 					mode = "pinned"
 				}
-				if a := c.Ask("c12.plan " + mode + " " + srcTok + " " + tgtTok); a != strings.Join(cols, ",") {
+				// the model names columns of the abstract source: translate to the file's
+				a := c.Ask("c12.plan " + mode + " " + srcTok + " " + tgtTok)
+				if len(cs.Variants) > 0 {
+					parts := strings.Split(a, ",")
+					for i, x := range parts {
+						var j int
+						if _, e := fmt.Sscan(x, &j); e == nil && j >= 0 && j < len(b.absToPhys) {
+							parts[i] = fmt.Sprint(b.absToPhys[j])
+						}
+					}
+					a = strings.Join(parts, ",")
+				}
+				if a != strings.Join(cols, ",") {
 					out.mism("corr:C12.column", srcTok+" "+tgtTok, strings.Join(cols, ","), a)
 					ok = false
 				}
@@ -1015,7 +1105,11 @@ func check(c *core.Ctx, cs *c12Case) (out *findings, bucket string, nontrivial b
 		}
 	}
 
-	// the column-chunk view of converted row groups
+	// the column-chunk view of converted row groups (it hands out the chunks
+	// of the file: no reconstruction of shredded variants there)
+	if b.nRebuilt > 0 {
+		return out, bucket, nontrivial
+	}
 	var got []parquet.Row
 	if err := guarded(func() error {
 		var e error
@@ -1027,7 +1121,7 @@ func check(c *core.Ctx, cs *c12Case) (out *findings, bucket string, nontrivial b
 			cl = knownChunkView
 		}
 		out.viol(cl, "ConvertRowGroup.ColumnChunks: "+core.Trunc(err.Error(), 300)+info)
-	} else if cl, what := compareRows(b, got); cl != "" {
+	} else if cl, what := compareRows(b, canonVariants(b.pairs, b.want, got)); cl != "" {
 		if k := chunkViewClass(cl, nAdded); k != cl {
 			cl = k
 		} else {
@@ -1166,6 +1260,11 @@ func run(c *core.Ctx) {
 		case 2:
 			ops = []string{"add"}
 		}
+		if i%4 == 1 {
+			// variant columns: stored shredded or not, declared unshredded by the target (or kept)
+			cs.Variants = genVarSpecs(c.Rng, src, 1+c.Rng.Intn(2))
+			src = cs.editBase()
+		}
 		cs.Edits = genEdits(c.Rng, src, ne, ops)
 		if i%10 == 9 {
 			cs.Kind = "clash"
@@ -1210,6 +1309,9 @@ func corpus(c *core.Ctx) {
 // vm_compute cross-check
 
 func coqName(s string) string {
+	if s == "typed_value" {
+		s = "typed_v"
+	}
 	b := make([]byte, 8)
 	copy(b, s)
 	v := uint64(0)
@@ -1251,7 +1353,7 @@ func coqRow(ncols int, row parquet.Row) string {
 
 func vmCase(cs *c12Case) string {
 	b := cs.build()
-	if len(b.rows) == 0 || len(b.added) > 12 {
+	if len(b.rows) == 0 || len(b.added) > 12 || len(cs.Variants) > 0 {
 		return ""
 	}
 	row := b.rows[0]
